@@ -45,7 +45,7 @@ func c02Fold(out []outEnvelope, id string) (state interface{}, n int) {
 
 // c02Write performs one data change followed by the invalidation of everything
 // that depends on the data.
-var c02Ops = []int{0, 1, 2, 3, 4, 5}
+var c02Ops = []int{0, 1, 2, 3, 4, 5, 6}
 
 func c02Write(w *kWorld, name string) {
 	switch c02Ops[nondet.Choice(name+".op", len(c02Ops))] {
@@ -61,6 +61,11 @@ func c02Write(w *kWorld, name string) {
 		}
 	case 3:
 		w.items = append(append([]*xItem{}, w.items...), &xItem{ID: 7, V: nondet.Int64(name + ".newv")})
+	case 6:
+		// an element becomes null in place (same length, same order)
+		if len(w.items) >= 1 {
+			w.items = append([]*xItem{nil}, w.items[1:]...)
+		}
 	case 5:
 		w.items = []*xItem{}
 	case 4:
